@@ -199,22 +199,7 @@ def answerReq (pre post : List String) : String :=
 
 def parsePathSegs (s : String) : Option (List Seg) := (s.splitOn "/").mapM parseSeg
 
-/-- the segment as it arrives when the client puts its text into the URL path unescaped (attribute
-    `w<token>` set by the harness from net/url's reading of the raw text) -/
-def arrivedSeg (s : String) : Option Seg :=
-  match s.splitOn ":" with
-  | [] => none
-  | _ :: attrs =>
-    match attrs.find? (·.startsWith "w") with
-    | some a => (parseSeg s).map (fun g => { g with txt := tokText (a.drop 1).toString })
-    | none => parseSeg s
-
-def arrivedPathSegs (s : String) : Option (List Seg) := (s.splitOn "/").mapM arrivedSeg
-
-
-def parseCall (ws : List String) (arrived : Bool := false) : Option Call := do
-  let parsePathSegs := if arrived then arrivedPathSegs else parsePathSegs
-  let parseSeg := if arrived then arrivedSeg else parseSeg
+def parseCall (ws : List String) : Option Call := do
   let name ← field ws "call"
   let a ← field ws "a"
   let o ← field ws "o"
@@ -267,22 +252,18 @@ def cliFilterWidened (c : Call) (ops : List Op) : Bool :=
     n == pick l "Cluster.StatusAll" "Cluster.StatusAllLocal" && s == toString (widen m) && widen m != m
   | _, _ => false
 
--- (a '#' or '?' in an unescaped path component also swallows all or the first of the query parameters that
--- follow: in the K26 zone only the operation and the path as it arrives are checked for the why-tag)
 def answerCli (pre post : List String) : String :=
   match (do
       let (cfgd, sa, ma) ← parseCredSit pre "cc"
       let cfg : CliCfg := { creds := cfgd, auth := sa, rpc := ← parseRpc (← field pre "rpc") }
       let cfgM : CliCfg := { cfg with auth := ma }
       let c ← parseCall pre
-      let ca ← parseCall pre true
       let ops ← parseOps (← field post "ops")
       let ret ← parseRet (← field post "ret")
-      pure (cfg, cfgM, c, ca, ops, ret) : Option (CliCfg × CliCfg × Call × Call × List Op × Ret)) with
+      pure (cfg, cfgM, c, ops, ret) : Option (CliCfg × CliCfg × Call × List Op × Ret)) with
   | none => "bad-case client-line"
-  | some (cfg, cfgM, c, ca, ops, ret) =>
-    -- the model is run on the call as its path components arrive (the client does not escape them)
-    let m := clientCall Gen.chain Gen.routes cfgM ca
+  | some (cfg, cfgM, c, ops, ret) =>
+    let m := clientCall Gen.chain Gen.routes cfgM c
     let a := "cli-" ++ (field pre "call").getD "?" ++ "-" ++ showRet m.2
     let failed := (cliClauses cfg c ops ret).filter (fun x => !x.2)
     if !failed.isEmpty then
@@ -290,10 +271,7 @@ def answerCli (pre post : List String) : String :=
       "propfail " ++ ",".intercalate names ++ " arm=" ++ a ++
         (if names.contains "client_arrives" && cliModeNotEffective c ops then " why=mode-not-effective" else "") ++
         (if names.contains "client_arrives" && cliFilterWidened c ops then " why=filter-widened" else "") ++
-        (if names.contains "client_arrives" && (callWant ca).isSome && (callWant ca) != (callWant c) &&
-            (match callWant ca with
-             | some w => arrived { w with arg := (match w.arg with | .path p _ => .pathOnly p | a => a) } ops
-             | none => false) then " why=unescaped" else "") ++
+        (if names.contains "client_noncanonical_refused" && !ops.isEmpty then " why=dotdot-escape" else "") ++
         (if names.contains "client_returns" && answerHasOrigins c && ret == .err 200 then " why=answer-has-origins" else "")
     else if canonOps ops != canonOps m.1 || ret != m.2 then
       "diff arm=" ++ a ++ " model=" ++ ",".intercalate (m.1.map (·.name)) ++ "/" ++ showRet m.2
